@@ -53,7 +53,7 @@ func menu(i int) []*st {
 		{kw: "m:ext", arg: "an arg", kids: []*st{{kw: "m:sub", noArg: true}}},
 		{kw: "rpc", arg: n("r"), kids: []*st{{kw: "input", noArg: true, kids: []*st{leaf("i")}}}},
 		{kw: "container", arg: n("c")},
-		{kw: "leaf", arg: n("m"), kids: []*st{{kw: "type", arg: "string"}, {kw: "description", raw: "two\n" + strings.Repeat(" ", 100) + "words\n  end\n" + exactIndent + "\ttab\n" + exactIndentTab + "\t\ttabs\n" + exactIndent + " blank"}}},
+		{kw: "leaf", arg: n("m"), kids: []*st{{kw: "type", arg: "string"}, {kw: "description", raw: "two\n" + strings.Repeat(" ", 100) + "words\r\n  end\n" + exactIndent + "\ttab\n" + exactIndentTab + "\t\ttabs\n" + exactIndent + " blank"}}},
 	}
 }
 
